@@ -20,8 +20,8 @@ CLAIMS = {
     'C05': dict(
         engine='X',
         technique='CrossHair+z3 enumeration of abort plans (failing / killed step, kill before the n-th persistent-state save, failing audit write) through real in-process bob invocations, followed by a fault-free invocation compared with a clean build',
-        text='For every edit kind, abort in the first build of a fresh workspace or in the rebuild after the edit, abort = script fails after partial output in any of 8 steps / process killed inside any of the 8 steps / '
-             'process killed before any of the first 35 saves of the workspace state / audit trail cannot be written: the next invocation (stale lock removed) completes, every package result equals a clean build, every '
+        text='For every edit kind (13, incl. user edits of the sources), abort in the first build of a fresh workspace or in the rebuild after the edit, abort = script fails after partial output in any of 8 steps / process killed inside any of the 8 steps / '
+             'process killed immediately before or immediately after any of the first 20 (thorough 60) saves of the workspace state / the script interpreter killed by a signal / audit trail cannot be written: the next invocation (stale lock removed) completes, every package result equals a clean build, every '
              'visited workspace has a truthful audit trail and a repeated build executes nothing.',
         design_ref='DESIGN.md section 4, C05',
         note='Trusted: script model, kill = BaseException raised at the kill point with all later state saves of that invocation suppressed. Outside: torn state files (C10), kills inside SCM commands, downloads, two consecutive aborts (thorough only).'),
